@@ -192,3 +192,51 @@ func ReadProbe(name string) map[string]string {
 	}
 	return files
 }
+
+var (
+	vinstrOnce sync.Once
+	vinstrPath string
+	vinstrErr  error
+)
+
+// Vinstr builds cmd/vinstr once per process.
+func Vinstr() (string, error) {
+	vinstrOnce.Do(func() {
+		vinstrPath = filepath.Join(ScratchRoot(), "vinstr")
+		out, err := Run(common.Root, nil, "go", "build", "-o", vinstrPath, "./cmd/vinstr")
+		if err != nil {
+			vinstrErr = fmt.Errorf("building vinstr: %v\n%s", err, out)
+		}
+	})
+	return vinstrPath, vinstrErr
+}
+
+// RuntimePkgs are the gqlgen runtime packages instrumented for scheduler-based checks.
+var RuntimePkgs = []string{
+	"github.com/99designs/gqlgen/graphql",
+	"github.com/99designs/gqlgen/graphql/executor",
+	"github.com/99designs/gqlgen/graphql/handler",
+	"github.com/99designs/gqlgen/graphql/handler/transport",
+	"github.com/99designs/gqlgen/graphql/handler/extension",
+	"github.com/99designs/gqlgen/graphql/handler/lru",
+	"golang.org/x/sync/semaphore",
+}
+
+// BuildInstrumented instruments pkgs (loaded from the scratch module at dir), then builds
+// mainPkg of that module with the overlay into out.
+func BuildInstrumented(dir string, vinstrArgs []string, mainPkg, out string) error {
+	vi, err := Vinstr()
+	if err != nil {
+		return err
+	}
+	idir := filepath.Join(dir, ".instr")
+	os.RemoveAll(idir)
+	args := append([]string{"-dir", dir, "-out", idir, "-stats", filepath.Join(idir, "stats.json")}, vinstrArgs...)
+	if o, err := Run(dir, GoEnv(), vi, args...); err != nil {
+		return fmt.Errorf("vinstr: %v\n%s", err, o)
+	}
+	if o, err := GoBuild(dir, "-overlay", filepath.Join(idir, "overlay.json"), "-o", out, mainPkg); err != nil {
+		return fmt.Errorf("instrumented build: %v\n%s", err, o)
+	}
+	return nil
+}
